@@ -544,9 +544,8 @@ def check_no_lost_updates(w, log, allow_gaps=False):
     intermediate revisions."""
     nrev = 0
     undone = undone_oids(w)
+    utids = undo_tids(w)
     for oid in w.oids:
-        if oid in undone:
-            continue        # an undo legitimately takes tokens away
         prev_log = None
         prev_n = None
         for tid, r in log.revisions(oid):
@@ -557,6 +556,12 @@ def check_no_lost_updates(w, log, allow_gaps=False):
             except Exception:       # noqa: B902
                 continue
             lg, n = st.get('log', []), st.get('n', 0)
+            if tid in utids:
+                # written by an undo: restores an earlier state (tokens
+                # legitimately disappear); its successor must derive from
+                # *this* state
+                prev_log, prev_n = lg, n
+                continue
             if prev_log is not None:
                 nrev += 1
                 cls = r.cls
@@ -581,7 +586,8 @@ def check_no_lost_updates(w, log, allow_gaps=False):
                                % (tid, oid, lg, prev_log))
             prev_log, prev_n = lg, n
         # every successful writer is in the final log exactly once
-        if prev_log is not None:
+        # (an undo legitimately takes tokens away)
+        if prev_log is not None and oid not in undone:
             toks = [tok for (ci, tn, written, inv, ret) in w.commits_ok
                     for (o, tok, base) in written if o == oid]
             missing = [t for t in toks if t not in prev_log]
@@ -595,6 +601,19 @@ def check_no_lost_updates(w, log, allow_gaps=False):
                 w.flag('phantom-update', 'final state of %r contains %r '
                        'which no acknowledged commit wrote' % (oid, extra))
     w.stats['revisions_checked'] = nrev
+
+
+def undo_tids(w):
+    """ids of the transactions that are undos (recorded at publication)."""
+    out = set()
+    last = {}
+    for ev in getattr(getattr(w, 'rec', None), 'events', ()):
+        if ev[1] in ('CI', 'UI'):
+            last[ev[2]] = ev[1]
+        elif ev[1] == 'F':
+            if last.pop(ev[2], None) == 'UI':
+                out.add(ev[3])
+    return out
 
 
 def undone_oids(w):
